@@ -2,6 +2,7 @@ package main
 
 import (
 	"fmt"
+	"go/token"
 	"go/types"
 	"sort"
 	"strconv"
@@ -72,17 +73,24 @@ type State struct {
 	loopSnaps map[*ssa.BasicBlock]*snapshot // heap at the first arrival at each loop head (atloop(...))
 	iterSnaps map[*ssa.BasicBlock]*snapshot // heap at the start of the symbolic iteration (atiter(...))
 	events    *evNode                       // persistent list of external interactions (replay scripts)
+	firstIter []loopEq                      // see Obligation.firstIter
+	curBlock  *ssa.BasicBlock               // block of the function under verification being executed
 }
 
 // extEvent is one call that the real code makes into something the replay has to
 // fake: a method of a modelled interface (Transport, net.Conn, ...) or a callback.
 type extEvent struct {
-	kind string // method | role
-	key  string // "Transport.Send" | role name
+	kind string // method | role | func
+	key  string // "Transport.Send" | role name | in-package callee (contract name)
 	recv Val    // interface value, or the function value
 	res  Val
 	sig  *types.Signature
 	post *snapshot
+	// func events (a contracted in-package callee, stubbed in a modular replay)
+	fs   *FuncSpec
+	vars map[string]Val // the callee's parameters by the names its contract uses
+	fn   *ssa.Function
+	pos  token.Pos
 }
 
 type evNode struct {
@@ -123,6 +131,8 @@ func (st *State) fork() *State {
 	}
 	n.trace = append([]string(nil), st.trace...)
 	n.events = st.events
+	n.firstIter = append([]loopEq(nil), st.firstIter...)
+	n.curBlock = st.curBlock
 	n.pendingAlloc = st.pendingAlloc
 	if st.loopSnaps != nil {
 		n.loopSnaps = make(map[*ssa.BasicBlock]*snapshot, len(st.loopSnaps))
